@@ -651,14 +651,28 @@ func runC01(ctx *Ctx) {
 			if nOps == 1 {
 				verb = "judge.c01.sound1 "
 			}
+			if s.name == "add" || s.name == "sub" || s.name == "mul" {
+				// is this paired run in the scope of the Lean soundness theorem of the operation?
+				push(c01Pending{kind: "scope", op: s.name},
+					"judge.c01.scope "+s.name+" "+strings.Join(w[:nOps], " ")+" "+strings.Join(ww[:nOps], " "))
+			} else if s.name == "length" {
+				push(c01Pending{kind: "scope", op: s.name}, "judge.c01.scope1 length "+w[0]+" "+ww[0])
+			} else if s.name == "haselement" {
+				// C01.sound_hasElement_partial: each operand kept, or replaced as a whole by an unknown (the
+				// needle: of its own type, or DynamicVal); decided here, on the wire forms and the public API
+				push(c01Pending{kind: "scope", op: s.name, extra: c01HasElementScope(args, ws, w, ww)}, "judge.c01.scope1 none")
+			}
 			push(c01Pending{kind: "sound", op: s.name, os: args, ws: ws, ro: ro, rw: rw, po: po, pw: pw, wireKey: key},
 				verb+strings.Join(w[:nOps], " ")+" "+strings.Join(ww[:nOps], " ")+" "+outcomeWire(ro, po)+" "+outcomeWire(rw, pw))
 		}
 	}
-	for _, c := range c01Corpus() {
+	for _, c := range append(c01Corpus(), c01D01Corpus()...) {
 		ctx.Tag("corpus")
 		doTuple(specByName[c.op], c.o, [][]cty.Value{c.w}, nil, true)
 	}
+	c01D01Tuples(ctx, ctx.N(1500, 12000), func(op string, o, w []cty.Value) {
+		doTuple(specByName[op], o, [][]cty.Value{w}, nil, true)
+	})
 	for _, s := range opSpecs {
 		for i := 0; i < 2*n; i++ {
 			stream := i % 2
@@ -721,8 +735,25 @@ func runC01(ctx *Ctx) {
 		fmt.Fprintf(os.Stderr, "C01 judge: %v\n", err)
 		os.Exit(2)
 	}
+	scope := "" // answer to the `judge.c01.scope` line that precedes a sound line of add / sub / mul
 	for i, a := range ans {
 		p := pend[i]
+		if p.kind == "scope" {
+			scope = a
+			if p.extra != "" {
+				scope = p.extra
+			}
+			continue
+		}
+		if p.kind == "sound" && (p.op == "add" || p.op == "sub" || p.op == "mul" || p.op == "length" || p.op == "haselement") {
+			verdict := a
+			if j := strings.IndexByte(a, ' '); j > 0 {
+				verdict = a[:j]
+			}
+			ctx.Tag("scope:" + p.op + ":" + scope + ":" + verdict)
+		} else {
+			scope = ""
+		}
 		switch {
 		case a == "pass":
 			ctx.Tag("judge:" + p.kind + ":pass")
@@ -735,6 +766,11 @@ func runC01(ctx *Ctx) {
 			why := strings.TrimPrefix(a, "fail ")
 			ctx.Tag("judge:" + p.kind + ":fail")
 			f := Failure{Site: c01Site(p, why), Sig: c01Sig(p, why), What: c01What(p, why), Input: p.wireKey}
+			if p.kind == "sound" && scope == "in" {
+				// every hypothesis of C01.sound_<op>_partial holds of this run (C01.in_scope_sound): the
+				// theorem says the model passes, so the model is not the code here — never a known finding
+				f.Sig = "contradicts-theorem:in_scope_sound:" + p.op
+			}
 			switch p.kind {
 			case "sound":
 				f.GoLit = p.op + "(" + goLits(p.os) + ") vs weakened " + p.op + "(" + goLits(p.ws) + ")"
